@@ -26,7 +26,17 @@ CFG = {
                  "with whole, 1-byte and 3-byte short writes and with Ok(0), a writer interrupting every other call, a writer whose flush fails: "
                  "Err(Io), never Ok, never a panic, accepted bytes = the exact prefix, no write after the failure; repeated renders identical; "
                  "engine snapshot (Debug + all finalized chunks, lineages, components) and contexts unchanged; 16 threads x N renders on one Arc<Tera> "
-                 "identical to the sequential results; distinct_nontrivial counts distinct (outcome, output, call-boundary) behaviours.",
+                 "identical to the sequential results; distinct_nontrivial counts distinct (outcome, output, call-boundary) behaviours. "
+                 "Purity over histories (harness/src/c18_history.rs): random histories of engine operations — add/replace templates one by one or in "
+                 "batches (every position of a base/mid/child chain, include target, component source, pages using them; replacements keep names, parents, "
+                 "blocks and shapes and change only bodies), autoescape suffixes, delimiters, fallback prefixes, escape fn, filter/test/function "
+                 "registration, global context, clone — interleaved with renders through every entry point and channel, run on engine A; after EVERY step "
+                 "A is observed (names, every template and block through both channels on two contexts, every component and its definition, five one-off "
+                 "sources under both autoescape flags, led by the one-off rendered most recently) and compared with an engine B rebuilt from the "
+                 "non-render operations alone that has never rendered before; a divergence is shrunk by single-op removal and reported with the history. "
+                 "One-off concurrency stress: 16 threads, each with its own (source, autoescape) pair (some sharing a source and differing in the flag), "
+                 "fixed rounds, on one shared Arc<Tera> and on per-thread clones of one engine, render_str and render_str_to alternating, every result "
+                 "compared with the sequential answer of a fresh engine.",
     "trusted_base": TB_COMMON + [
         "axioms: none",
         "Model/VM.v is a hand port of interpret()/render_to; Model/Writer.v ports the public render* entry points of tera.rs and models a "
